@@ -66,3 +66,11 @@ func TestStreamedResults(t *testing.T) {
 		}
 	})
 }
+
+// TestStreamDesigns: the same relation as TestStreamedResults over generated
+// designs (streams profile).
+func TestStreamDesigns(t *testing.T) {
+	streamcase.RunDesigns(t, "C03", "c03sd", streamcase.ServerToClient, func(meth *m.Method, c *streamcase.Case) bool {
+		return len(c.Spec.Results) > 0 || c.HasFinal
+	})
+}
